@@ -719,6 +719,7 @@ func (s *Scorch) currentSnapshot() *IndexSnapshot {
 		rv.AddRef()
 	}
 	s.rootLock.RUnlock()
+	verifHook("reader.open", s, rv)
 	return rv
 }
 
